@@ -19,6 +19,8 @@ use crate::util::{dn, parse_data, show_rr, Rng};
 #[serde(tag = "op")]
 pub enum Op {
     Insert { name: u8, rtype: u8, val: u8, ttl: u32 },
+    /// One `insert_all` call: (name, type, value, ttl) per record.
+    InsertAll { items: Vec<(u8, u8, u8, u32)> },
     Get { name: u8, q: u8 },
     GetUnchecked { name: u8, q: u8 },
     Prune,
@@ -109,12 +111,32 @@ pub fn gen_plan(seed: u64, tier: Tier) -> CachePlan {
             if ttl > 0 && ttl < 1000 {
                 last_ttl = ttl;
             }
-            ops.push(Op::Insert {
-                name: r.below(u64::from(names)) as u8,
-                rtype: r.below(u64::from(types)) as u8,
-                val: r.below(u64::from(vals)) as u8,
-                ttl,
-            });
+            if r.chance(0.15) {
+                // a batch, as the resolver caches a reply: mixed TTLs, TTL 0 among them
+                let n = r.range(2, 4);
+                let mut items = vec![(
+                    r.below(u64::from(names)) as u8,
+                    r.below(u64::from(types)) as u8,
+                    r.below(u64::from(vals)) as u8,
+                    ttl,
+                )];
+                for _ in 1..n {
+                    items.push((
+                        r.below(u64::from(names)) as u8,
+                        r.below(u64::from(types)) as u8,
+                        r.below(u64::from(vals)) as u8,
+                        *r.pick(&[0u32, 0, 1, 2, 5, 60]),
+                    ));
+                }
+                ops.push(Op::InsertAll { items });
+            } else {
+                ops.push(Op::Insert {
+                    name: r.below(u64::from(names)) as u8,
+                    rtype: r.below(u64::from(types)) as u8,
+                    val: r.below(u64::from(vals)) as u8,
+                    ttl,
+                });
+            }
         } else if x < w_insert + w_get {
             let q = if r.chance(0.25) {
                 5
@@ -168,6 +190,16 @@ impl Target {
         match self {
             Target::Shared(c) => c.insert(rr),
             Target::Direct(c) => c.insert(rr),
+        }
+    }
+    fn insert_all(&mut self, rrs: &[ResourceRecord]) {
+        match self {
+            Target::Shared(c) => c.insert_all(rrs),
+            Target::Direct(c) => {
+                for rr in rrs {
+                    c.insert(rr);
+                }
+            }
         }
     }
     fn get(&mut self, name: &DomainName, q: QueryType) -> Vec<ResourceRecord> {
@@ -337,6 +369,59 @@ pub fn execute(plan: &CachePlan) -> RunResult {
                     model.hi.insert(*name, now);
                 }
                 shape = mix64(shape ^ 2 ^ (u64::from(*ttl == 0) << 8));
+            }
+            Op::InsertAll { items } => {
+                let rrs: Vec<ResourceRecord> = items
+                    .iter()
+                    .map(|(name, rtype, val, ttl)| ResourceRecord {
+                        name: name_of(*name),
+                        rtype_with_data: data_of(*name, *rtype, *val),
+                        rclass: RecordClass::IN,
+                        ttl: *ttl,
+                    })
+                    .collect();
+                let before = target.snapshot();
+                target.insert_all(&rrs);
+                let after = target.snapshot();
+                bump("probe.insert_all_batch");
+                if plan.shared && items.iter().any(|i| i.3 == 0) && items.iter().any(|i| i.3 > 0) {
+                    bump("probe.insert_all_batch_mixing_ttl0_and_live");
+                }
+                for (name, rtype, val, ttl) in items {
+                    if plan.shared && *ttl == 0 {
+                        continue;
+                    }
+                    let key = (*name, *rtype, *val);
+                    if model.entries.contains_key(&key) {
+                        bump("probe.reinsert");
+                    }
+                    model
+                        .entries
+                        .insert(key, now.saturating_add(u64::from(*ttl).saturating_mul(SEC)));
+                    model.lo.insert(*name, now);
+                    model.hi.insert(*name, now);
+                }
+                // the shared cache stores nothing of a TTL-0 record, batch or not
+                if plan.shared {
+                    if let (Ok(eb), Ok(ea)) = (snapshot_entries(&before, &keymap), snapshot_entries(&after, &keymap)) {
+                        let mut want: std::collections::BTreeSet<Key> = eb.keys().copied().collect();
+                        for (name, rtype, val, ttl) in items {
+                            if *ttl > 0 {
+                                want.insert((*name, *rtype, *val));
+                            }
+                        }
+                        let got: std::collections::BTreeSet<Key> = ea.keys().copied().collect();
+                        if got != want {
+                            vs.push(Violation::new("c05.ttl0_stored").fact("in_a_batch", true).detail(json!({
+                                "step": step,
+                                "batch": rrs.iter().map(show_rr).collect::<Vec<_>>(),
+                                "extra": got.difference(&want).map(|k| format!("{k:?}")).collect::<Vec<_>>(),
+                                "missing": want.difference(&got).map(|k| format!("{k:?}")).collect::<Vec<_>>(),
+                            })));
+                        }
+                    }
+                }
+                shape = mix64(shape ^ 7 ^ ((items.len() as u64) << 8));
             }
             Op::Get { name, q } | Op::GetUnchecked { name, q } => {
                 let unchecked = matches!(op, Op::GetUnchecked { .. });
